@@ -210,7 +210,9 @@ if not HAVE_NUMBA:
         >>> np.nonzero(tf)[0]               # doctest: +ELLIPSIS
         array([0, 3, 4]...)
         """
-        y = y.ravel()
+        # work in double precision: differences of narrow integer or
+        # unsigned types would overflow
+        y = y.ravel().astype(np.float64)
         # example: [1, 2, 3, 4, 4, -2, -2, -2]
 
         if y.size == 1:
@@ -298,7 +300,9 @@ else:
         >>> np.nonzero(tf)[0]               # doctest: +ELLIPSIS
         array([0, 3, 4]...)
         """
-        y = y.ravel()
+        # work in double precision: differences of narrow integer or
+        # unsigned types would overflow
+        y = y.ravel().astype(np.float64)
         # example: [1, 2, 3, 4, 4, -2, -2, -2]
 
         if y.size == 1:
